@@ -12,7 +12,8 @@ EXPLANATION = (
     "values), _drop_nans (one mask on both) and compute_dirichlet_bc (raveled slice indices and raveled coefficients are both "
     "lexicographic); (R10.3) multipatch boundary data address glued dofs through the patch-to-global map; (R10.4) blocked "
     "numbering offset j*prod(N), 'all' expands to all 2*dim faces, slice conventions for sides; (R10.5) restrict / extend / "
-    "restrict_matrix / complete use one consistent set of selection matrices.")
+    "restrict_matrix / complete use one consistent set of selection matrices.  The order tags distinguish the sorting "
+    "permutation (argsort) from the rank of the indices (np.unique(..., return_inverse=True)), which is its inverse.")
 DOES_NOT_DECIDE = "interpolation accuracy of boundary data; the space-time initial condition beyond index pairing"
 TECHNIQUE = "custom AST rules: order-provenance (pair-coupling) tags on arrays, def-use of selection matrices, table/convention agreement"
 
